@@ -303,6 +303,9 @@ func TestVerifC13Load(t *testing.T) {
 	// (c13_loadvalues_test.go).
 	c13LoadValues(t, rep, docs, last)
 
+	// Faults at the system calls of the save (c13_loadsys_test.go).
+	c13LoadSyscallFaults(t, rep, docs, last)
+
 	// Log levels of the process (c13_loadlevel_test.go).
 	c13LoadLevels(t, rep, docs, last)
 
